@@ -130,8 +130,8 @@ theorem inv6_retable {s : StR} {m : RM} {P : List Nat} {L : Bool} (h : Inv6 s m 
 
 /-- changing anything but the table, the serial counter and the closed flag -/
 theorem inv6_core {s : StR} {m : RM} {P : List Nat} {L : Bool} (h : Inv6 s m P L) (c' : St)
-    (h1 : c'.reqs = s.core.reqs) (h2 : c'.nmake = s.core.nmake) (h3 : c'.closed = s.core.closed) (hooks' : List (Nat × Hook)) (st : Bool) :
-    Inv6 { core := c', hooks := hooks', stubborn := st } m P L := by
+    (h1 : c'.reqs = s.core.reqs) (h2 : c'.nmake = s.core.nmake) (h3 : c'.closed = s.core.closed) (hooks' : List (Nat × Hook)) (st : Bool) (sy : Sync) :
+    Inv6 { core := c', hooks := hooks', stubborn := st, sync := sy } m P L := by
   exact ⟨h.ok, by simpa only [h1] using h.pw, by simpa only [h1] using h.ids, by simpa only [h1, h2] using h.lt,
     by simpa only [h1] using h.cancSent, by simpa only [h2] using h.made, by simpa only [h2] using h.firedLt,
     by simpa only [h1, h2] using h.part, by simpa only [h1] using h.liveNF, h.pNF, by simpa only [h2] using h.pLt, h.pOne,
@@ -186,8 +186,8 @@ theorem inv6_fire {s : StR} {m : RM} {L : Bool} {k : Nat} (id : Int) (r : Res) (
 /-- `makeRequest` returned a Deferred that fires at once -/
 theorem inv6_made_pend {s : StR} {m : RM} {L : Bool} (id : Int) (h : Inv6 s m [] L) (c' : St)
     (h1 : c'.reqs = s.core.reqs) (h2 : c'.nmake = s.core.nmake + 1) (h3 : c'.closed = s.core.closed)
-    (hooks' : List (Nat × Hook)) (st : Bool) :
-    Inv6 { core := c', hooks := hooks', stubborn := st } (r06Ob m (.made s.core.nmake id)) [s.core.nmake] L := by
+    (hooks' : List (Nat × Hook)) (st : Bool) (sy : Sync) :
+    Inv6 { core := c', hooks := hooks', stubborn := st, sync := sy } (r06Ob m (.made s.core.nmake id)) [s.core.nmake] L := by
   have hnc : s.core.nmake ∉ m.made := by
     intro hcn
     have := (h.made _).mp hcn; omega
@@ -228,8 +228,8 @@ theorem inv6_made_live {s : StR} {m : RM} {L : Bool} (id : Int) (h : Inv6 s m []
     (hs : rq.serial = s.core.nmake) (hid : rq.id = id) (hcn : rq.cancelled = false)
     (hfresh : ∀ r ∈ s.core.reqs, r.id ≠ id) (hcl : s.core.closed = false)
     (hc : c'.reqs = s.core.reqs ++ [rq]) (hn : c'.nmake = s.core.nmake + 1) (hcc : c'.closed = s.core.closed)
-    (hooks' : List (Nat × Hook)) (st : Bool) :
-    Inv6 { core := c', hooks := hooks', stubborn := st } (r06Ob m (.made s.core.nmake id)) [] L := by
+    (hooks' : List (Nat × Hook)) (st : Bool) (sy : Sync) :
+    Inv6 { core := c', hooks := hooks', stubborn := st, sync := sy } (r06Ob m (.made s.core.nmake id)) [] L := by
   have hnc : s.core.nmake ∉ m.made := by
     intro hcn'
     have := (h.made _).mp hcn'; omega
@@ -346,14 +346,14 @@ theorem inv6_hookEnd {s : StR} {m : RM} {L : Bool} (h : Inv6 s m [] L) (hd : m.d
 
 /-- `close()` goes ahead -/
 theorem inv6_closing {s : StR} {m : RM} {L : Bool} (h : Inv6 s m [] L) (hcl : s.core.closed = false) (c' : St)
-    (h1 : c'.reqs = s.core.reqs) (h2 : c'.nmake = s.core.nmake) (h3 : c'.closed = true) (hooks' : List (Nat × Hook)) (st : Bool) :
-    Inv6 { core := c', hooks := hooks', stubborn := st } (r06Ob m .closing) [] true ∧ m.mustFire = none := by
+    (h1 : c'.reqs = s.core.reqs) (h2 : c'.nmake = s.core.nmake) (h3 : c'.closed = true) (hooks' : List (Nat × Hook)) (st : Bool) (sy : Sync) :
+    Inv6 { core := c', hooks := hooks', stubborn := st, sync := sy } (r06Ob m .closing) [] true ∧ m.mustFire = none := by
   have hmn : m.mustFire = none := by
     cases hm : m.mustFire with
     | none => rfl
     | some x => obtain ⟨d, l⟩ := x; have := (h.mf d l hm).1; simp_all
   refine ⟨?_, hmn⟩
-  have hb : Inv6 { core := c', hooks := hooks', stubborn := st } m [] true :=
+  have hb : Inv6 { core := c', hooks := hooks', stubborn := st, sync := sy } m [] true :=
     ⟨h.ok, by simpa only [h1] using h.pw, by simpa only [h1] using h.ids, by simpa only [h1, h2] using h.lt,
       by simpa only [h1] using h.cancSent, by simpa only [h2] using h.made, by simpa only [h2] using h.firedLt,
       by simpa only [h1, h2] using h.part, by simpa only [h1] using h.liveNF, h.pNF, by simp, h.pOne,
@@ -411,7 +411,7 @@ theorem spec6_fire (cfg : Cfg) (n : Nat) (ih : Spec6 cfg n) (s : StR) (k : Nat) 
     obtain ⟨i1, i2, i3⟩ := inv6_fire id r hinv hown
     -- the state the callback starts in
     have j1 : Inv6 { s with hooks := s.hooks.filter (fun p => p.1 != k) } (r06Ob m (.ob (.fire k id r))) [] L :=
-      inv6_core i1 s.core rfl rfl rfl _ _
+      inv6_core i1 s.core rfl rfl rfl _ _ _
     have j2 := inv6_hookBegin k j1
     have hnf2 : NoFuelOut (exec cfg n { s with hooks := s.hooks.filter (fun p => p.1 != k) } (.acts hk)).2 := by
       intro hm; apply hnf; simp [hm]
@@ -488,7 +488,7 @@ theorem post6_flat_inert (s : StR) (m : RM) (L : Bool) (h : Inv6 s m [] L) (c' :
     (hos : ∀ o ∈ os, ∀ k i r, o ≠ .fire k i r) :
     Post6 s m L { s with core := c' } (fold6 m (obs os)) := by
   rw [fold6_obs_inert m os hos]
-  exact ⟨inv6_core h c' h1 h2 h3 _ _, rfl, fun _ h => h, fun _ _ h => Or.inl h, fun hc => by simp only [h3]; exact hc⟩
+  exact ⟨inv6_core h c' h1 h2 h3 _ _ _, rfl, fun _ h => h, fun _ _ h => Or.inl h, fun hc => by simp only [h3]; exact hc⟩
 
 theorem spec6_act (cfg : Cfg) (n : Nat) (ih : Spec6 cfg n) (s : StR) (a : Action) (m : RM) (L : Bool)
     (hpre : Pre6 (.act a) s m L) (hnf : NoFuelOut (exec cfg (n + 1) s (.act a)).2) :
@@ -497,7 +497,11 @@ theorem spec6_act (cfg : Cfg) (n : Nat) (ih : Spec6 cfg n) (s : StR) (a : Action
   cases a with
   | close => simp only [exec] at hnf ⊢; exact (ih s .close m L hinv hnf).1
   | cancel id => simp only [exec] at hnf ⊢; exact (ih s (.cancel id) m L hinv hnf).1
-  | make id ex => simp only [exec] at hnf ⊢; exact (ih s (.make id ex none) m L hinv hnf).1
+  | make id ex =>
+    simp only [exec] at hnf ⊢
+    by_cases hsy : s.sync = .none
+    · rw [if_pos hsy] at hnf ⊢; exact (ih s (.make id ex none) m L hinv hnf).1
+    · rw [if_neg hsy] at hnf ⊢; exact (ih s (.makeS id ex none) m L hinv hnf).1
   | disconnect =>
     simp only [exec, step]
     split
@@ -537,12 +541,12 @@ theorem spec6_make (cfg : Cfg) (n : Nat) (ih : Spec6 cfg n) (s : StR) (id : Int)
     -- the three places where the new Deferred fires at once
     have pend : ∀ (res : Res) (hooks' : List (Nat × Hook)) (c' : St), (∀ b, res ≠ .ok b) →
         c'.reqs = s.core.reqs → c'.nmake = s.core.nmake + 1 → c'.closed = s.core.closed →
-        NoFuelOut (exec cfg n { core := c', hooks := hooks', stubborn := s.stubborn } (.fire s.core.nmake id res)).2 →
-        Post6 s m L (exec cfg n { core := c', hooks := hooks', stubborn := s.stubborn } (.fire s.core.nmake id res)).1
+        NoFuelOut (exec cfg n { core := c', hooks := hooks', stubborn := s.stubborn, sync := s.sync } (.fire s.core.nmake id res)).2 →
+        Post6 s m L (exec cfg n { core := c', hooks := hooks', stubborn := s.stubborn, sync := s.sync } (.fire s.core.nmake id res)).1
           (fold6 (r06Ob m (.made s.core.nmake id))
-            (exec cfg n { core := c', hooks := hooks', stubborn := s.stubborn } (.fire s.core.nmake id res)).2) := by
+            (exec cfg n { core := c', hooks := hooks', stubborn := s.stubborn, sync := s.sync } (.fire s.core.nmake id res)).2) := by
       intro res hooks' c' hres h1 h2 h3 hnf'
-      have j := inv6_made_pend id hinv c' h1 h2 h3 hooks' s.stubborn
+      have j := inv6_made_pend id hinv c' h1 h2 h3 hooks' s.stubborn s.sync
       obtain ⟨p, _⟩ := ih _ (.fire s.core.nmake id res) _ L ⟨j, fun b hb => absurd hb (hres b)⟩ hnf'
       exact p.of_eq rfl rfl h3
     by_cases hc : s.core.closed = true
@@ -568,7 +572,7 @@ theorem spec6_make (cfg : Cfg) (n : Nat) (ih : Spec6 cfg n) (s : StR) (id : Int)
               split <;> simp [fold6, r06Ob]
             rw [hf]
             exact post6_of_inv (inv6_made_live id hinv { serial := s.core.nmake, id := id, expect := true, sent := true, cancelled := false }
-              _ rfl rfl rfl hfresh hc' rfl rfl (by simp [hc']) _ _) rfl rfl (by simp [hc'])
+              _ rfl rfl rfl hfresh hc' rfl rfl (by simp [hc']) _ _ _) rfl rfl (by simp [hc'])
           | false =>
             simp only [Bool.false_eq_true, if_false] at hnf ⊢
             have hf : ∀ tl, fold6 m ([ObR.ob (if s.core.losing = true then Ob.writeLost conn s.core.nmake id else Ob.write conn s.core.nmake id),
@@ -584,11 +588,11 @@ theorem spec6_make (cfg : Cfg) (n : Nat) (ih : Spec6 cfg n) (s : StR) (id : Int)
             simp [fold6, r06Ob, obs]
           rw [hf]
           exact post6_of_inv (inv6_made_live id hinv { serial := s.core.nmake, id := id, expect := ex, sent := false, cancelled := false }
-            _ rfl rfl rfl hfresh hc' rfl rfl (by simp [hc']) _ _) rfl rfl (by simp [hc'])
+            _ rfl rfl rfl hfresh hc' rfl rfl (by simp [hc']) _ _ _) rfl rfl (by simp [hc'])
         · simp only [hco, if_false]
           simp only [fold6_cons, fold6_nil]
           exact post6_of_inv (inv6_made_live id hinv { serial := s.core.nmake, id := id, expect := ex, sent := false, cancelled := false }
-            _ rfl rfl rfl hfresh hc' rfl rfl (by simp [hc']) _ _) rfl rfl (by simp [hc'])
+            _ rfl rfl rfl hfresh hc' rfl rfl (by simp [hc']) _ _ _) rfl rfl (by simp [hc'])
 
 
 theorem filter_id_le_one (reqs : List Req) (hids : reqs.Pairwise (fun a b => a.id ≠ b.id)) (id : Int) (q : Req → Bool) :
@@ -796,7 +800,7 @@ theorem close_core (cfg : Cfg) (n : Nat) (ih : Spec6 cfg n) (s : StR) (m : RM) (
     · rfl
     · have := hinv.lClosed hLL; simp_all
   subst hL
-  obtain ⟨j, hmn⟩ := inv6_closing hinv hcl c' h1 h2 h3 s.hooks s.stubborn
+  obtain ⟨j, hmn⟩ := inv6_closing hinv hcl c' h1 h2 h3 s.hooks s.stubborn s.sync
   obtain ⟨p, he⟩ := ih { s with core := c' } .closeLoop (r06Ob m .closing) true ⟨j, rfl⟩ hnf
   have he' := he rfl
   have hfold : fold6 m ([ObR.closing] ++ obs pre ++ (exec cfg n { s with core := c' } .closeLoop).2 ++ obs post)
@@ -968,7 +972,7 @@ theorem inv6_lost {s : StR} {m : RM} {L : Bool} (h : Inv6 s m [] L) :
     · simp
     · simp
     · intro hcl hL; simp [h.closedEmpty hcl hL]
-  exact inv6_core j _ hf.1 hf.2.1 hf.2.2 _ _
+  exact inv6_core j _ hf.1 hf.2.1 hf.2.2 _ _ _
 
 /-- a packet carrying `id` takes every entry with that id out of the table -/
 theorem inv6_filterId {s : StR} {m : RM} {L : Bool} (h : Inv6 s m [] L) (id : Int) :
@@ -1009,14 +1013,19 @@ theorem spec6_frames (cfg : Cfg) (n : Nat) (ih : Spec6 cfg n) (s : StR) (conn : 
     rw [exec_frames_cons] at hnf ⊢
     cases hid : corrId b with
     | none =>
-      simp only [hid]
-      obtain ⟨j, hcl, hob⟩ := inv6_lost hinv
-      have hfold : fold6 m (ObR.ob Ob.raiseUnderflow :: obs (lostStep s.core).2) = m := by
-        rw [fold6_cons]
-        have : r06Ob m (.ob .raiseUnderflow) = m := by simp [r06Ob]
-        rw [this, fold6_obs_inert m _ hob]
-      rw [hfold]
-      exact post6_of_inv j rfl rfl hcl
+      simp only [hid] at hnf ⊢
+      have hru : r06Ob m (.ob .raiseUnderflow) = m := by simp [r06Ob]
+      by_cases hsy : s.sync = .none
+      · rw [if_pos hsy]
+        obtain ⟨j, hcl, hob⟩ := inv6_lost hinv
+        have hfold : fold6 m (ObR.ob Ob.raiseUnderflow :: obs (lostStep s.core).2) = m := by
+          rw [fold6_cons, hru, fold6_obs_inert m _ hob]
+        rw [hfold]
+        exact post6_of_inv j rfl rfl hcl
+      · rw [if_neg hsy] at hnf ⊢
+        obtain ⟨p, _⟩ := ih s .lost m L hinv hnf.cons
+        rw [fold6_cons, hru]
+        exact p
     | some id =>
       simp only [hid] at hnf ⊢
       have j := inv6_filterId hinv id
@@ -1047,6 +1056,91 @@ theorem spec6_frames (cfg : Cfg) (n : Nat) (ih : Spec6 cfg n) (s : StR) (conn : 
         rw [this]
         exact p2.of_eq rfl rfl rfl
 
+theorem lostStep_fields (c : St) :
+    (lostStep c).1.reqs = (c.reqs.filter (fun r => !r.cancelled)).map (fun r => { r with sent := false }) ∧
+    (lostStep c).1.nmake = c.nmake ∧ (lostStep c).1.closed = c.closed := by
+  simp only [lostStep, connect_, tryConnect]
+  split <;> (try split) <;> exact ⟨rfl, rfl, rfl⟩
+
+/-- the state `_connectionLost` leaves (whatever the connector does next) -/
+theorem inv6_lostTable {s : StR} {m : RM} {L : Bool} (h : Inv6 s m [] L) (c' : St)
+    (h1 : c'.reqs = (s.core.reqs.filter (fun r => !r.cancelled)).map (fun r => { r with sent := false }))
+    (h2 : c'.nmake = s.core.nmake) (h3 : c'.closed = s.core.closed) :
+    Inv6 { s with core := c' } m [] L := by
+  obtain ⟨j, _, _⟩ := inv6_lost h
+  obtain ⟨f1, f2, f3⟩ := lostStep_fields s.core
+  exact inv6_core j c' (by rw [h1, f1]) (by rw [h2, f2]) (by rw [h3, f3]) _ _ _
+
+theorem spec6_dial (cfg : Cfg) (n : Nat) (ih : Spec6 cfg n) (s : StR) (m : RM) (L : Bool)
+    (hpre : Pre6 .dial s m L) (hnf : NoFuelOut (exec cfg (n + 1) s .dial).2) :
+    Post6 s m L (exec cfg (n + 1) s .dial).1 (fold6 m (exec cfg (n + 1) s .dial).2) := by
+  have hinv : Inv6 s m [] L := hpre
+  simp only [exec] at hnf ⊢
+  split
+  · simp only [fold6_cons, fold6_nil, r06Ob]; exact Post6.refl s m L hinv
+  · split
+    · have := post6_flat_inert s m L hinv { s.core with connector := .attempt } [.connect s.core.host s.core.port] rfl rfl rfl (by simp)
+      simpa [obs] using this
+    · have := post6_flat_inert s m L hinv { s.core with failures := s.core.failures + 1, connector := .backoff (s.core.now + cfg.policy (s.core.failures + 1)) }
+        [.connect s.core.host s.core.port, .setTimer (cfg.policy (s.core.failures + 1))] rfl rfl rfl (by simp)
+      simpa [obs] using this
+    · rename_i hc _ hsy
+      rw [if_neg hc] at hnf
+      simp only [hsy] at hnf ⊢
+      have j := inv6_core hinv (established s.core) rfl rfl rfl s.hooks s.stubborn Sync.ok
+      obtain ⟨p, _⟩ := ih _ (.sendLoop s.core.nconn (s.core.reqs.map (·.serial))) m L j hnf.cons
+      rw [fold6_cons]
+      have : r06Ob m (.ob (.connect s.core.host s.core.port)) = m := by simp [r06Ob]
+      rw [this]
+      exact p.of_eq rfl rfl rfl
+
+theorem spec6_lost (cfg : Cfg) (n : Nat) (ih : Spec6 cfg n) (s : StR) (m : RM) (L : Bool)
+    (hpre : Pre6 .lost s m L) (hnf : NoFuelOut (exec cfg (n + 1) s .lost).2) :
+    Post6 s m L (exec cfg (n + 1) s .lost).1 (fold6 m (exec cfg (n + 1) s .lost).2) := by
+  have hinv : Inv6 s m [] L := hpre
+  simp only [exec] at hnf ⊢
+  split
+  · simp only [fold6_cons, fold6_nil, r06Ob]
+    exact post6_of_inv (inv6_lostTable hinv _ (by rfl) (by rfl) (by rfl)) rfl rfl rfl
+  · split
+    · exact post6_of_inv (inv6_lostTable hinv _ (by rfl) (by rfl) (by rfl)) rfl rfl rfl
+    · rename_i hc he
+      rw [if_neg hc, if_neg he] at hnf
+      obtain ⟨p, _⟩ := ih _ .dial m L (inv6_lostTable hinv _ (by rfl) (by rfl) (by rfl)) hnf
+      exact p.of_eq rfl rfl rfl
+
+theorem spec6_makeS (cfg : Cfg) (n : Nat) (ih : Spec6 cfg n) (s : StR) (id : Int) (ex : Bool) (hk : Option Hook) (m : RM) (L : Bool)
+    (hpre : Pre6 (.makeS id ex hk) s m L) (hnf : NoFuelOut (exec cfg (n + 1) s (.makeS id ex hk)).2) :
+    Post6 s m L (exec cfg (n + 1) s (.makeS id ex hk)).1 (fold6 m (exec cfg (n + 1) s (.makeS id ex hk)).2) := by
+  have hinv : Inv6 s m [] L := hpre
+  simp only [exec] at hnf ⊢
+  split
+  · rename_i hcond
+    rw [if_pos hcond] at hnf
+    simp only [Bool.and_eq_true, Bool.not_eq_eq_eq_not, Bool.not_true, bne_iff_ne, ne_eq] at hcond
+    obtain ⟨⟨⟨⟨_, hcl⟩, _⟩, _⟩, hd⟩ := hcond
+    have hfresh : ∀ r ∈ s.core.reqs, r.id ≠ id := by
+      intro r hr he
+      have : s.core.reqs.any (fun r => r.id == id) = true := by rw [List.any_eq_true]; exact ⟨r, hr, by simp [he]⟩
+      simp [this] at hd
+    split
+    · rename_i hsy
+      simp only [hsy] at hnf ⊢
+      have j := inv6_core hinv (established s.core) rfl rfl rfl s.hooks s.stubborn Sync.ok
+      obtain ⟨p, _⟩ := ih _ (.make id ex hk) m L j hnf.cons
+      rw [fold6_cons]
+      have : r06Ob m (.ob (.connect s.core.host s.core.port)) = m := by simp [r06Ob]
+      rw [this]
+      exact p.of_eq rfl rfl rfl
+    · have hf : fold6 m [ObR.ob (Ob.connect s.core.host s.core.port), ObR.ob (Ob.setTimer (cfg.policy 1)), ObR.made s.core.nmake id]
+          = r06Ob m (.made s.core.nmake id) := by simp [fold6, r06Ob]
+      rw [hf]
+      exact post6_of_inv (inv6_made_live id hinv { serial := s.core.nmake, id := id, expect := ex, sent := false, cancelled := false }
+        _ rfl rfl rfl hfresh hcl rfl rfl (by simp [hcl]) _ _ _) rfl rfl (by simp [hcl])
+  · rename_i hcond
+    rw [if_neg hcond] at hnf
+    exact (ih s (.make id ex hk) m L hinv hnf).1
+
 /-- the specification holds at every amount of fuel -/
 theorem spec6 (cfg : Cfg) : ∀ n, Spec6 cfg n := by
   intro n
@@ -1067,6 +1161,9 @@ theorem spec6 (cfg : Cfg) : ∀ n, Spec6 cfg n := by
       exact ⟨a, fun _ => b⟩
     | sendLoop c snap => exact ⟨spec6_sendLoop cfg n ih s c snap m L hpre hnf, by simp⟩
     | frames c fs f => exact ⟨spec6_frames cfg n ih s c fs f m L hpre hnf, by simp⟩
+    | makeS id ex h => exact ⟨spec6_makeS cfg n ih s id ex h m L hpre hnf, by simp⟩
+    | lost => exact ⟨spec6_lost cfg n ih s m L hpre hnf, by simp⟩
+    | dial => exact ⟨spec6_dial cfg n ih s m L hpre hnf, by simp⟩
 
 
 /-- the flat events that go through the flat `step` unchanged -/
@@ -1116,13 +1213,24 @@ theorem post6_step (cfg : Cfg) (fuel : Nat) (s : StR) (m : RM) (h : Inv6 s m [] 
     (hnf : NoFuelOut (stepRWith cfg fuel s e).2) :
     Post6 s m false (stepRWith cfg fuel s e).1 (fold6 m (stepRWith cfg fuel s e).2) := by
   cases e with
-  | make id ex hk => exact (spec6 cfg fuel s (.make id ex hk) m false h hnf).1
+  | make id ex hk =>
+    simp only [stepRWith] at hnf ⊢
+    split
+    · rename_i hsy; rw [if_pos hsy] at hnf; exact (spec6 cfg fuel s (.make id ex hk) m false h hnf).1
+    · rename_i hsy; rw [if_neg hsy] at hnf; exact (spec6 cfg fuel s (.makeS id ex hk) m false h hnf).1
   | stubborn on =>
     simp only [stepRWith, fold6_nil]
-    exact post6_of_inv (inv6_core h s.core rfl rfl rfl _ _) rfl rfl rfl
+    exact post6_of_inv (inv6_core h s.core rfl rfl rfl _ _ _) rfl rfl rfl
+  | syncMode sm =>
+    simp only [stepRWith, fold6_nil]
+    exact post6_of_inv (inv6_core h s.core rfl rfl rfl _ _ _) rfl rfl rfl
   | flat e =>
     cases e with
-    | make id ex => exact (spec6 cfg fuel s (.make id ex none) m false h hnf).1
+    | make id ex =>
+      simp only [stepRWith] at hnf ⊢
+      split
+      · rename_i hsy; rw [if_pos hsy] at hnf; exact (spec6 cfg fuel s (.make id ex none) m false h hnf).1
+      · rename_i hsy; rw [if_neg hsy] at hnf; exact (spec6 cfg fuel s (.makeS id ex none) m false h hnf).1
     | cancel id => exact (spec6 cfg fuel s (.cancel id) m false h hnf).1
     | close => exact (spec6 cfg fuel s .close m false h hnf).1
     | connOk =>
@@ -1135,7 +1243,7 @@ theorem post6_step (cfg : Cfg) (fuel : Nat) (s : StR) (m : RM) (h : Inv6 s m [] 
           simpa [obs] using this
         · rw [if_neg hcl] at hnf ⊢
           have j : Inv6 { s with core := { s.core with failures := 0, connector := .none, proto := some s.core.nconn, nconn := s.core.nconn + 1, losing := false, rbuf := [] } } m [] false :=
-            inv6_core h { s.core with failures := 0, connector := .none, proto := some s.core.nconn, nconn := s.core.nconn + 1, losing := false, rbuf := [] } rfl rfl rfl _ _
+            inv6_core h { s.core with failures := 0, connector := .none, proto := some s.core.nconn, nconn := s.core.nconn + 1, losing := false, rbuf := [] } rfl rfl rfl _ _ _
           obtain ⟨p, _⟩ := spec6 cfg fuel _ (.sendLoop s.core.nconn (s.core.reqs.map (·.serial))) m false j hnf
           exact p.of_eq rfl rfl rfl
       · rw [if_neg hatt]
@@ -1152,8 +1260,40 @@ theorem post6_step (cfg : Cfg) (fuel : Nat) (s : StR) (m : RM) (h : Inv6 s m [] 
         · rename_i c hp hl
           exact (spec6 cfg fuel s (.frames c (feed s.core.rbuf chunk).frames (feed s.core.rbuf chunk)) m false h (by simpa [hp, hl] using hnf)).1
     | connFail => exact post6_flat_other cfg s m false h .connFail (by simp)
-    | advance dt => exact post6_flat_other cfg s m false h (.advance dt) (by simp)
-    | lost => exact post6_flat_other cfg s m false h .lost (by simp)
+    | advance dt =>
+      simp only [stepRWith] at hnf ⊢
+      split
+      · exact post6_flat_other cfg s m false h (.advance dt) (by simp)
+      · rename_i hsy
+        rw [if_neg hsy] at hnf
+        split
+        · simp only [fold6_cons, fold6_nil, r06Ob]; exact Post6.refl s m false h
+        · rename_i hdt
+          rw [if_neg hdt] at hnf
+          split
+          · rename_i due hco
+            simp only [hco] at hnf
+            split
+            · rename_i hdue
+              rw [if_pos hdue] at hnf
+              obtain ⟨p, _⟩ := spec6 cfg fuel _ .dial m false (inv6_core h _ (by rfl) (by rfl) (by rfl) _ _ _) hnf
+              rw [← hco] at p
+              exact p.of_eq rfl rfl rfl
+            · have := post6_flat_inert s m false h { s.core with now := s.core.now + dt } [] rfl rfl rfl (by simp)
+              simpa [obs] using this
+          · have := post6_flat_inert s m false h { s.core with now := s.core.now + dt } [] rfl rfl rfl (by simp)
+            simpa [obs] using this
+    | lost =>
+      simp only [stepRWith] at hnf ⊢
+      split
+      · exact post6_flat_other cfg s m false h .lost (by simp)
+      · rename_i hsy
+        rw [if_neg hsy] at hnf
+        split
+        · simp only [fold6_cons, fold6_nil, r06Ob]; exact Post6.refl s m false h
+        · rename_i c hp
+          simp only [hp] at hnf
+          exact (spec6 cfg fuel s .lost m false h hnf).1
     | disconnect => exact post6_flat_other cfg s m false h .disconnect (by simp)
     | updateMetadata a b => exact post6_flat_other cfg s m false h (.updateMetadata a b) (by simp)
     | writeFail b => exact post6_flat_other cfg s m false h (.writeFail b) (by simp)
